@@ -312,5 +312,7 @@ def run(ck):
     rule_binding(ck)
     rule_vacancy(ck)
     rule_recording(ck)
-    from .c18 import rule_energy_totals
+    from .c18 import rule_energy_totals, rule_current_power
     rule_energy_totals(ck, rid="C02.R8")
+    # "total energy delivered equals the time-integral of recorded aggregate power": aggregate power / current as defined (shared with C18)
+    rule_current_power(ck, rid_c="C02.R8c", rid_p="C02.R8p")
